@@ -711,6 +711,107 @@ T = {
     needs="two incentives of different reward denoms on one pool becoming active in the same block: the order of the pool's ExternalRewardDenoms follows map iteration",
     caught_by="C19.ranges_as_expected (regenerated table of map ranges) — reported with no-failing-input-found",
     history="caught at first run as a broken proof obligation; the quick replicas did not diverge"),
+ # ---- round 8
+ "C01-8": dict(
+    change="x/amm/keeper/keeper_join_pool_no_swap.go JoinPoolNoSwap (oracle branch): the chain-wide denom liquidity is raised by the amounts OFFERED (tokenInMaxs) instead of the amounts joined",
+    needs="an oracle pool joined with both assets at once, off the ratio of the reserves (the sender keeps the remainder of one asset)",
+    caught_by="C01.liquidity_eq_sum in hist mode",
+    history="caught at first run"),
+ "C02-8": dict(
+    change="x/commitment/genesis.go ExportGenesis: a loop over IterateCommitments that means to skip empty records returns true for them, which STOPS the iteration: every record that sorts after the first empty one is left out of the export",
+    needs="an account that joined and later left with all its shares (an empty commitments record) sorting before a holder, then a restart from the exported state",
+    caught_by="C02.shares_agree in amm-focused histories with genesis round trips (the commitment module's too, imported into an emptied store)",
+    history="MISSED at first, for two reasons: the round trip imported on top of the live store (a record the export leaves out simply stayed), and amm-focused histories round-tripped the amm module only. Round trips now empty the module's own store before the import, as a restarted chain does (for the modules whose export is complete on the unchanged tree - measured with mode gentrip), and amm-focused histories round-trip the commitment module as well; caught since"),
+ "C03-8": dict(
+    change="x/amm/keeper/route_exact_amount_in.go RouteExactAmountIn: all pools of a route are resolved before the first hop (same mechanism as C01-4, found independently)",
+    needs="an exact-in route that goes through one pool twice, then another swap on that pool: it is priced on reserves that no longer match what the pool holds",
+    caught_by="C03.constant_product_of_holdings_not_decreasing (driver C03H); C01.reserve_eq_held / C01.liquidity_eq_sum caught it at first contact",
+    history="MISSED by C03 at first (every swap is priced correctly on the book it is handed; it is the book that is wrong, which is C01's clause); the constant-product clause of C03H is now also evaluated on the pool's real holdings; caught since"),
+ "C04-8": dict(
+    change="x/amm/keeper/update_pool_for_swap.go UpdatePoolForSwap: the two addresses of the weight-recovery bonus transfer are swapped (the recipient pays the treasury)",
+    needs="an oracle pool beyond the weight threshold, a swap in the recovering direction, a treasury holding the out denom",
+    caught_by="C04.exact_in_min_out, C04.exact_out_credit, C04.only_stated_denoms in mode c04",
+    history="caught at first run"),
+ "C05-8": dict(
+    change="x/amm/types/pool.go UpdatePoolAssetBalance: rejects only a negative balance (it rejected zero too)",
+    needs="a single-sided exit from an oracle pool worth exactly the whole reserve of that asset",
+    caught_by="C05.oracle_exit_never_empty in mode c05",
+    history="caught at first run. The author's write-up ends with a remark about the UNCHANGED code (a join naming one denom twice): shown to be a genuine defect and repaired, a4286a6"),
+ "C06-8": dict(
+    change="x/stablestake/keeper/params.go + keeper.go: the decoded parameters (TotalValue among them) are cached in memory per block height; a rolled-back transaction leaves its value in the cache",
+    needs="a loan with interest pending, an operation that accrues it and is then rolled back, and another write of the vault in the same block",
+    caught_by="C06.vault_equation in hist mode",
+    history="caught at first run"),
+ "C07-8": dict(
+    change="x/stablestake/keeper/interest_rate.go InterestRateComputation: the floor of the rate applies only while the vault's loan figure is positive",
+    needs="coins sent straight to the vault's account in excess of the outstanding loans, a live debt, a dozen epochs and a debt refresh: the rate goes below zero and the redemption rate falls",
+    caught_by="C07Src.interest_rate_in_band (the regenerated definition no longer stays in the band) - reported with no-failing-input-found",
+    history="caught at first run as a broken proof obligation; mode c07 did not reach a failing redemption (no direct inflow to the vault's account in its op sequences)"),
+ "C08-8": dict(
+    change="x/leveragelp/keeper/msg_server_update_params.go UpdateParams: pools whose own cap exceeds a lowered module-wide LeverageMax are re-created with NewPool (their leveraged total is reset to zero)",
+    needs="governance lowering leveragelp's LeverageMax below a pool's cap while the pool has open positions",
+    caught_by="C08.pool_eq_sum in lp-focused histories with leveragelp governance (VERIF_GOVLP)",
+    history="MISSED at first (the leveragelp governance of the histories re-submitted and removed pools but never re-sent the module's parameters); module-parameter updates with another leverage cap added; caught since"),
+ "C09-8": dict(
+    change="x/perpetual/genesis.go InitGenesis: the open-position counter is set to the highest id handed out instead of the number of imported positions",
+    needs="a restart from an exported state taken after some position below the highest id was closed",
+    caught_by="C09.counter in perp-focused histories with genesis round trips",
+    history="caught at first run"),
+ "C10-8": dict(
+    change="x/perpetual/keeper/process_open.go ProcessOpen: the health check of a new leg is skipped when CheckSameAssetPosition finds a matching position (which ignores the pool id, while Open discards a match in another pool)",
+    needs="two perpetual pools trading one asset, the owner holding a matching position in the other pool, and an open whose health is at or below the safety factor",
+    caught_by="C10.open_healthy in mode c10; C10Src.gen_open_starts_healthy (the window of ProcessOpen no longer equals openAccepted) since round 8",
+    history="caught at first run"),
+ "C11-8": dict(
+    change="x/amm/keeper/update_pool_for_swap.go UpdatePoolForSwap: a guard clause returns from the whole function when the payable bonus is zero (SetPool, the event and the AfterSwap hook are skipped)",
+    needs="an oracle pool beyond the weight threshold, a recovering swap, and a treasury that cannot pay the bonus",
+    caught_by="C11.total_eq in hist mode",
+    history="caught at first run"),
+ "C12-8": dict(
+    change="x/amm/keeper/keeper_exit_pool.go ExitPool: an exit from a pool that is not an oracle pool AT EXIT TIME skips the lock-up check",
+    needs="shares locked by a join into an oracle pool, governance switching the pool's UseOracle off within the hour, the owner's exit",
+    caught_by="C12.lock_kept in histories with pool-parameter governance (VERIF_GOVPOOL)",
+    history="caught at first run"),
+ "C13-8": dict(
+    change="x/masterchef/genesis.go InitGenesis: user reward records with RewardPending = 0 are skipped (the clean-up it copies tests RewardDebt)",
+    needs="a holder who has just claimed, or joined after rewards had accrued (debt > 0, pending = 0), and a restart from the exported state: the debt is forgotten and the pool's whole history is credited again",
+    caught_by="C13.block_credit, C13.solvent in histories with genesis round trips (imported into an emptied store)",
+    history="MISSED at first (the round trip imported on top of the live store: a skipped record simply stayed); round trips now empty the module's own store first; caught since"),
+ "C14-8": dict(
+    change="x/commitment/keeper/commitments.go GetAllCommitments: the record variable is hoisted out of the loop; every element of the returned slice points at the last record",
+    needs="two or more commitments records, an unfinished vesting on one that is not the last, and a restart from the exported state",
+    caught_by="C14.complete, C14.conservation in mode c14 (genesis round trips into an emptied store)",
+    history="MISSED at first (same reason as C13-8); caught since"),
+ "C15-8": dict(
+    change="x/amm/keeper/pool_share.go BurnPoolShareFromAccount: everything the amm module account holds is burnt instead of the shares just moved in (the pool creation fees, ELYS, sit there)",
+    needs="a pool created through MsgCreatePool while the creation fee was positive, then any exit",
+    caught_by="C15.mint_burn_sites in scenario c15-pool-created-with-fee-then-exits; C15.sites_as_expected (the regenerated site table) at first contact",
+    history="caught at first run only as a broken proof obligation without a failing input (the argument shape of the burn in the regenerated table changed; every world of the histories has a creation fee of 0); a directed scenario added (a listed creator, a positive fee, the message, exits); caught with a failing input since"),
+ "C16-8": dict(
+    change="x/oracle/keeper/msg_server_price_feeder.go SetPriceFeeder: the not-a-feeder refusal became a nothing-to-change early return; an unknown account falls through and is created as a feeder",
+    needs="MsgSetPriceFeeder{IsActive: true} from an account that is not on the list, then its MsgFeedPrice",
+    caught_by="C16.feeder_gate in mode c16",
+    history="caught at first run"),
+ "C17-8": dict(
+    change="x/amm/keeper/msg_server_create_pool.go CreatePool: the allow-list check moved into a fee helper that returns early when the creation fee is not positive",
+    needs="amm PoolCreationFee = 0 (governance-settable; every world of the harness) and a sender outside AllowedPoolCreators",
+    caught_by="C17.list_gated_refused in mode c17",
+    history="caught at first run"),
+ "C18-8": dict(
+    change="x/stablestake/keeper/epoch.go GetEpochPosition: the guard against a non-positive epoch length became a guard against a negative one (validation accepts 0)",
+    needs="stablestake EpochLength = 0 (a governance update that passes validation): height % 0 panics in the begin-blocker",
+    caught_by="C18.block_ok in scenario c18-every-numeric-parameter-at-zero",
+    history="MISSED at first (the random governance shocks of a quick run did not draw this field with this value); a directed sweep added: every numeric field of every parameter-update message, one at a time, set to zero, applied when validation lets it through, two blocks after each (48 settings applied on the unchanged tree, none halts); caught since"),
+ "C19-8": dict(
+    change="x/tier/keeper/portfolio.go GetDateFromContext: the block time is rebuilt with time.Unix, i.e. in the node's LOCAL time zone; the date is part of a store key",
+    needs="a replica whose process time zone is not UTC, a block whose local date differs from the UTC date, and a first portfolio record of that day",
+    caught_by="C19.replicas_agree in mode c19 (the fresh-process replica runs under TZ=Asia/Tokyo / America/New_York)",
+    history="MISSED at first (all replicas ran in the sandbox's UTC); the replica that is a fresh OS process per block now runs in another time zone; caught since"),
+ "C20-8": dict(
+    change="x/tradeshield/keeper/msg_server_perpetual_order.go CancelPerpetualOrders: the batch loop builds each inner cancel with the STORED owner of the order, so the owner guard compares the owner with itself",
+    needs="MsgCancelPerpetualOrders from somebody who does not own a listed order",
+    caught_by="C20.owner_only in ts-focused histories (batch cancels)",
+    history="MISSED at first (the grammar had the single-order cancels only); batch cancels of one to three orders, now and then with a stranger's order or a stranger's signature, added with the owner-only clause for them; caught since"),
 }
 
 root = os.path.join(os.path.dirname(os.path.dirname(os.path.abspath(__file__))), "seeded")
